@@ -847,6 +847,8 @@ func genPegRuntime(repo, out string) (err error) {
 	if perr != nil {
 		return fmt.Errorf("untranslatable: %s:1: does not parse: %v", filepath.Base(path), perr)
 	}
+	// normalisation before translation (normalize.go): the shapes matched below are the canonical ones
+	normalizeFileWith(fset, file, normProfilePegRuntime)
 	g := &rtGen{fset: fset, path: path, have: map[string]bool{}}
 
 	var initFn *ast.FuncDecl
